@@ -42,12 +42,16 @@ type repoStep struct {
 }
 
 // awkward but CSV/SQL representable prices, one per snapshot id
-var pricePool = []float64{0.1, 1e-7, 123456789.123456789, 3.0000000000000004, 2.5e-300, 1.7976931348623157e308, 5e-324,
-	0.30000000000000004, 1234.5678, 99.99, 1e21, 7, 1.0 / 3.0, math.Pi, 2.2250738585072014e-308, 100}
+var pricePool = []float64{0.1, -1.2345678901234567e-300, -9.8765432109876543e+299, 1e-7, 123456789.123456789, 3.0000000000000004, 2.5e-300, 1.7976931348623157e308, 5e-324,
+	0.30000000000000004, 1234.5678, 99.99, 1e21, 7, 1.0 / 3.0, math.Pi, 2.2250738585072014e-308, 100} // the second and third: 24 characters in every price field
 
 func snapOf(s repoSnap) *asset.Snapshot {
 	p := pricePool[s.ID%len(pricePool)] + float64(s.ID/len(pricePool))
-	return &asset.Snapshot{Date: day0.AddDate(0, 0, s.D), Open: p, High: p * 2, Low: p / 2, Close: p, Volume: float64(s.ID)}
+	v := float64(s.ID)
+	if s.ID%3 != 0 {
+		v = (v + 1) * -1.2345678901234567e-290 // a volume that needs 24 characters, too: rows of more than 128 bytes
+	}
+	return &asset.Snapshot{Date: day0.AddDate(0, 0, s.D), Open: p, High: p * 2, Low: p / 2, Close: p, Volume: v}
 }
 
 func sameSnap(a *asset.Snapshot, w repoSnap) bool {
